@@ -26,7 +26,13 @@ fn menu() -> Vec<(&'static str, String)> {
 enum Step {
     /// deliver the next notification; `now` = its background analysis (if any) completes before
     /// the handler continues
-    Notify { now: bool },
+    /// the handler continues; `then` = queued analyses of earlier notifications that complete after
+    /// that, while the handler is still running (before its own report)
+    Notify {
+        now: bool,
+        #[serde(default)]
+        then: Vec<usize>,
+    },
     /// run the queued background task with this index
     Run(usize),
 }
@@ -55,13 +61,15 @@ fn publishes(msgs: &[Value]) -> Vec<Publish> {
 /// pending, or Err on a protocol problem.
 fn execute(ls: &mut Ls, texts: &[String], schedule: &[Step]) -> Result<(Vec<Publish>, Vec<usize>, usize), String> {
     ls.new_session(2, true);
-    let nows: Vec<bool> = schedule.iter().filter_map(|s| if let Step::Notify { now } = s { Some(*now) } else { None }).collect();
-    ls.call(json!({"cmd": "gate", "closed": true, "run_now": nows}))?;
+    ls.call(json!({"cmd": "gate", "closed": true, "run_now": [], "after_spawn": []}))?;
     let mut next = 0usize;
     let mut out = vec![];
     for s in schedule {
         match s {
-            Step::Notify { .. } => {
+            Step::Notify { now, then } => {
+                // the choices for the spawn of *this* notification (a notification whose text does not
+                // reach the background analysis leaves them unused; the next one replaces them)
+                ls.call(json!({"cmd": "gate", "closed": true, "run_now": [now], "after_spawn": [then]}))?;
                 let v = if next == 0 { ls.open(URI, 1, &texts[0])? } else { ls.change(URI, (next + 1) as i64, &texts[next])? };
                 if let Some(p) = v.get("panic") {
                     return Err(format!("handler panics: {p}"));
@@ -82,6 +90,27 @@ fn execute(ls: &mut Ls, texts: &[String], schedule: &[Step]) -> Result<(Vec<Publ
     }
     let pending = ls.pending();
     Ok((out, pending, next))
+}
+
+/// all ordered selections (incl. the empty one) of the given items
+fn ordered_subsets(items: &[usize]) -> Vec<Vec<usize>> {
+    let mut res = vec![vec![]];
+    let mut layer: Vec<Vec<usize>> = vec![vec![]];
+    for _ in 0..items.len() {
+        let mut nx = vec![];
+        for w in &layer {
+            for i in items {
+                if !w.contains(i) {
+                    let mut z = w.clone();
+                    z.push(*i);
+                    nx.push(z);
+                }
+            }
+        }
+        res.extend(nx.iter().cloned());
+        layer = nx;
+    }
+    res
 }
 
 /// the diagnostics the final text alone produces: true = some
@@ -154,14 +183,19 @@ fn eval(case: &Case, acc: &Acc) -> Vec<Violation> {
                 acc.outcome(&format!("{:?}", verdict.as_ref().map(|v| v.0.clone()).unwrap_or("ok".into())));
                 if let Some((class, why)) = verdict {
                     // narrow the class by the shape of the schedule
-                    let any_now = sched.iter().any(|s| matches!(s, Step::Notify { now: true }));
+                    let any_now = sched.iter().any(|s| matches!(s, Step::Notify { now: true, .. }));
                     let late_run = {
                         // a task that runs after a later notification was delivered
                         let mut notified = 0;
                         let mut late = false;
                         for s in &sched {
                             match s {
-                                Step::Notify { .. } => notified += 1,
+                                Step::Notify { then, .. } => {
+                                    notified += 1;
+                                    if then.iter().any(|i| *i + 1 < notified) {
+                                        late = true;
+                                    }
+                                }
                                 Step::Run(i) => {
                                     if *i + 1 < notified {
                                         late = true;
@@ -189,9 +223,15 @@ fn eval(case: &Case, acc: &Acc) -> Vec<Violation> {
             }
             if delivered < n {
                 for now in [true, false] {
-                    let mut s2 = sched.clone();
-                    s2.push(Step::Notify { now });
-                    stack.push(s2);
+                    // queued analyses of earlier notifications may complete while this handler runs; in
+                    // terms of publish order this differs from "before the handler" only when the new
+                    // analysis has already reported (now = true)
+                    let thens: Vec<Vec<usize>> = if now { ordered_subsets(&pending) } else { vec![vec![]] };
+                    for then in thens {
+                        let mut s2 = sched.clone();
+                        s2.push(Step::Notify { now, then });
+                        stack.push(s2);
+                    }
                 }
             }
         }
@@ -237,7 +277,7 @@ pub fn run(tier: Tier, replay: Option<&str>) -> i32 {
     let acc = Acc::default();
     let m = menu();
     let keys: Vec<&str> = m.iter().map(|x| x.0).collect();
-    let depth = tier.pick(2, 3);
+    let depth = tier.pick(2, 4);
     let mut histories: Vec<Vec<String>> = vec![];
     let mut layer: Vec<Vec<String>> = vec![vec![]];
     for _ in 0..depth {
@@ -273,7 +313,7 @@ pub fn run(tier: Tier, replay: Option<&str>) -> i32 {
         &acc,
         Finish {
             level: "model_checking",
-            rule: format!("histories: every sequence of 1..={depth} open/change notifications over 7 document texts (valid LL(1), syntax error, not LL(k) for the server's max_k, valid LL(2), LALR with a resolved conflict, valid LALR, left recursive); for each history a depth-first search over all schedules: notifications are handled in order; the background analysis a notification spawns either completes before the handler continues (its publish precedes the handler's own) or is queued and runs at any later point, also after later edits; every prefix is re-executed on a fresh real Server (hooks H3/H4). Oracle on every complete schedule (all notifications delivered, no analysis pending): the last publishDiagnostics carries the final version and is empty exactly when the final text alone produces no diagnostic."),
+            rule: format!("histories: every sequence of 1..={depth} open/change notifications over 7 document texts (valid LL(1), syntax error, not LL(k) for the server's max_k, valid LL(2), LALR with a resolved conflict, valid LALR, left recursive); for each history a depth-first search over all schedules: notifications are handled in order; the background analysis a notification spawns either completes before the handler continues (its publish precedes the handler's own) or is queued and runs at any later point, also after later edits and also while a later handler is still running (between that handler's own analysis report and its final report); every prefix is re-executed on a fresh real Server (hooks H3/H4). Oracle on every complete schedule (all notifications delivered, no analysis pending): the last publishDiagnostics carries the final version and is empty exactly when the final text alone produces no diagnostic."),
             exhaustive_note: "all histories up to the stated length and all schedules of each unless capped=true".into(),
             assumptions: vec![
                 "a background analysis is one atomic step: its closure owns clones of all inputs and has exactly one visible effect, one send on the connection".into(),
